@@ -1066,7 +1066,13 @@ def make_machine(sink, max_steps):
         # some module this entry keeps alive has an equal-code twin
         if EXCLUDE['twin_partial_drop']:
           self.excluded['twin_partial_drop'] += 1
-          victims = [x for x in sorted(self.ents) if self.fams_of([x]) & fams]
+          # closure: entries of the family may keep modules of further families alive (modules merged by recode)
+          while True:
+            victims = [x for x in sorted(self.ents) if self.fams_of([x]) & fams]
+            more = self.fams_of(victims)
+            if more <= fams:
+              break
+            fams = fams | more
       if len(victims) >= len(self.ents):
         return
       self.emit(['drop', victims])
